@@ -2,7 +2,9 @@ import MoneroModel.Model.KeyOps
 import MoneroModel.Proofs.EdwardsLawful
 /-! The operator model `Model/KeyOps.lean` (permissive `point()` + extended-coordinate arithmetic + recompression) computes,
 on accepted keys, the operations of the group `EdPoint` through the strict encoding; results are accepted keys; no `expect`
-fails. Helper lemmas for `Props/C13.lean`. -/
+fails. The scalar operators of the model (dalek's `Scalar52::add` / `Scalar52::mul` transcribed on integers: one conditional
+subtraction, two Montgomery reductions) are addition / multiplication modulo `l` on reduced operands (`sc52Add_eq`, `sc52Mul_eq`,
+`montReduce_spec`). Further: `enc_zero`, `dec_spec`, `enc_of_dec`, `hexDecode_spec`. Helper lemmas for `Props/C13.lean`. -/
 namespace Monero.Edw
 open Ed Monero.Keys
 
@@ -70,14 +72,76 @@ theorem keyPoint_enc (A : EdPoint) : ∃ (P : Pt) (hP : Valid P), keyPoint (edOp
   rw [edOps_dec_enc] at h2
   exact (Option.some.inj h2).symm
 
+/-! ### dalek's Niels-form addition / subtraction (Model/KeyOps `dalekAdd`, `dalekSub`) compute the coordinates of `Ed.add` / `Ed.sub` -/
+/-- two reduced residues with the same image in the field are equal -/
+theorem mod_eq_of_cast {a b : ℕ} (h : ((a : ℕ) : F) = (b : F)) : a % Ed.p = b % Ed.p := (cast_eq_iff a b).mp h
+
+theorem dalekAdd_eq (a b : Pt) : dalekAdd a b = Ed.add a b := by
+  have hA : (a.y + Ed.p - a.x) % Ed.p * ((b.y + Ed.p - b.x) % Ed.p) % Ed.p
+      = (a.y + Ed.p - a.x) * (b.y + Ed.p - b.x) % Ed.p := (Nat.mul_mod _ _ _).symm
+  have hB : (a.y + a.x) % Ed.p * ((b.y + b.x) % Ed.p) % Ed.p = (a.y + a.x) * (b.y + b.x) % Ed.p := (Nat.mul_mod _ _ _).symm
+  have hC : a.t * (b.t * (2 * Ed.d % Ed.p) % Ed.p) % Ed.p = a.t * 2 * Ed.d % Ed.p * b.t % Ed.p := by
+    apply mod_eq_of_cast
+    push_cast; simp only [cast_mod]; push_cast; simp only [cast_mod]; push_cast; ring
+  have hD : (a.z * b.z % Ed.p + a.z * b.z % Ed.p) % Ed.p = a.z * 2 * b.z % Ed.p := by
+    apply mod_eq_of_cast
+    push_cast; simp only [cast_mod]; push_cast; ring
+  unfold dalekAdd Ed.add toNiels completedToExtended
+  simp only [hA, hB, hC, hD]
+  refine congr (congr (congr (congrArg Pt.mk rfl) ?_) ?_) rfl
+  · rw [Nat.mul_comm]
+  · rw [Nat.mul_comm]
+
+theorem dalekSub_eq (a b : Pt) (hb : b.x < Ed.p) : dalekSub a b = Ed.sub a b := by
+  have hnx : (((Ed.p - b.x % Ed.p) % Ed.p : ℕ) : F) = -(b.x : F) := by rw [cast_neg _ (mod_p_lt _), cast_mod]
+  have hnt : (((Ed.p - b.t % Ed.p) % Ed.p : ℕ) : F) = -(b.t : F) := by rw [cast_neg _ (mod_p_lt _), cast_mod]
+  have hnt' : (((Ed.p - b.t % Ed.p : ℕ)) : F) = -(b.t : F) := by rw [← hnt, cast_mod]
+  have hnxle : (Ed.p - b.x % Ed.p) % Ed.p ≤ b.y + Ed.p := Nat.le_trans (Nat.le_of_lt (mod_p_lt _)) (Nat.le_add_left _ _)
+  -- MP (mine) = A of Ed.add a (neg b); PM = B; TT2d = −C; ZZ2 = D
+  have hA : (a.y + Ed.p - a.x) % Ed.p * ((b.y + b.x) % Ed.p) % Ed.p
+      = (a.y + Ed.p - a.x) * (b.y + Ed.p - (Ed.p - b.x % Ed.p) % Ed.p) % Ed.p := by
+    rw [← Nat.mul_mod]
+    apply mod_eq_of_cast
+    push_cast; rw [cast_sub_p _ _ hnxle, hnx]; ring
+  have hB : (a.y + a.x) % Ed.p * ((b.y + Ed.p - b.x) % Ed.p) % Ed.p
+      = (a.y + a.x) * (b.y + (Ed.p - b.x % Ed.p) % Ed.p) % Ed.p := by
+    rw [← Nat.mul_mod]
+    apply mod_eq_of_cast
+    push_cast; rw [cast_sub_p _ _ (by omega), hnx]; ring
+  have hD : (a.z * b.z % Ed.p + a.z * b.z % Ed.p) % Ed.p = a.z * 2 * b.z % Ed.p := by
+    apply mod_eq_of_cast
+    push_cast; simp only [cast_mod]; push_cast; ring
+  -- F and G of the reference against Z and T of dalek's completed point
+  have hG : ∀ D : ℕ, (D + Ed.p - a.t * (b.t * (2 * Ed.d % Ed.p) % Ed.p) % Ed.p) % Ed.p
+      = (D + a.t * 2 * Ed.d % Ed.p * ((Ed.p - b.t % Ed.p) % Ed.p) % Ed.p) % Ed.p := by
+    intro D
+    apply mod_eq_of_cast
+    rw [cast_sub_p _ _ (Nat.le_trans (Nat.le_of_lt (mod_p_lt _)) (Nat.le_add_left _ _))]
+    simp only [cast_mod, Nat.cast_mul, Nat.cast_add, Nat.cast_ofNat, hnt']; ring
+  have hF : ∀ D : ℕ, (D + a.t * (b.t * (2 * Ed.d % Ed.p) % Ed.p) % Ed.p) % Ed.p
+      = (D + Ed.p - a.t * 2 * Ed.d % Ed.p * ((Ed.p - b.t % Ed.p) % Ed.p) % Ed.p) % Ed.p := by
+    intro D
+    apply mod_eq_of_cast
+    rw [cast_sub_p _ _ (Nat.le_trans (Nat.le_of_lt (mod_p_lt _)) (Nat.le_add_left _ _))]
+    simp only [cast_mod, Nat.cast_mul, Nat.cast_add, Nat.cast_ofNat, hnt']; ring
+  unfold dalekSub Ed.sub Ed.add Ed.neg toNiels completedToExtended
+  simp only [hA, hB, hD, hG, hF]
+  refine congr (congr (congr (congrArg Pt.mk rfl) ?_) ?_) rfl
+  · rw [Nat.mul_comm]
+  · rw [Nat.mul_comm]
+
 theorem keyAdd_of_points (a b : Bytes) (P Q : Pt) (h1 : keyPoint a = some P) (h2 : keyPoint b = some Q) :
     keyAdd a b = some (Ed.encodePt (Ed.add P Q)) := by
   unfold keyAdd keyOfPoint
   rw [h1, h2]
-theorem keySub_of_points (a b : Bytes) (P Q : Pt) (h1 : keyPoint a = some P) (h2 : keyPoint b = some Q) :
+  show some (Ed.encodePt (dalekAdd P Q)) = _
+  rw [dalekAdd_eq]
+theorem keySub_of_points (a b : Bytes) (P Q : Pt) (hQ : Q.x < Ed.p) (h1 : keyPoint a = some P) (h2 : keyPoint b = some Q) :
     keySub a b = some (Ed.encodePt (Ed.sub P Q)) := by
   unfold keySub keyOfPoint
   rw [h1, h2]
+  show some (Ed.encodePt (dalekSub P Q)) = _
+  rw [dalekSub_eq _ _ hQ]
 theorem keySmul_of_point (s a : Bytes) (P : Pt) (h1 : keyPoint a = some P) :
     keySmul s a = some (Ed.encodePt (Ed.smul (Ed.leNat s) P)) := by
   unfold keySmul keyOfPoint
@@ -91,7 +155,7 @@ theorem keyAdd_enc (A B : EdPoint) : keyAdd (edOps.enc A) (edOps.enc B) = some (
 theorem keySub_enc (A B : EdPoint) : keySub (edOps.enc A) (edOps.enc B) = some (edOps.enc (A - B)) := by
   obtain ⟨P, hP, h1, hA⟩ := keyPoint_enc A
   obtain ⟨Q, hQ, h2, hB⟩ := keyPoint_enc B
-  rw [keySub_of_points _ _ P Q h1 h2, encodePt_eq_enc (valid_sub' hP hQ), toPoint_sub hP hQ, hA, hB]
+  rw [keySub_of_points _ _ P Q hQ.reduced.1 h1 h2, encodePt_eq_enc (valid_sub' hP hQ), toPoint_sub hP hQ, hA, hB]
 
 theorem keySmul_enc (s : Bytes) (hs : Ed.leNat s < 2 ^ 260) (A : EdPoint) :
     keySmul s (edOps.enc A) = some (edOps.enc (Ed.leNat s • A)) := by
@@ -103,6 +167,177 @@ theorem keyPubOf_eq (s : Bytes) (hs : Ed.leNat s < 2 ^ 260) : keyPubOf s = edOps
 
 theorem secret_lt_260 (s : Bytes) (hs : secretAccept s = true) : Ed.leNat s < 2 ^ 260 :=
   Nat.lt_trans ((secretAccept_iff s).mp hs).2 l_lt_260
+
+/-! ### dalek's `Scalar52` arithmetic (Model/KeyOps: `sc52Sub`, `sc52Add`, `montReduce`, `sc52Mul`) is arithmetic modulo `l`
+on reduced operands -/
+set_option exponentiation.threshold 300
+theorem l_literal : Ed.l = 7237005577332262213973186563042994240857116359379907606001950938285454250989 := by decide
+theorem R260_literal : R260 = 1852673427797059126777135760139006525652319754650249024631321344126610074238976 := by decide
+
+/-- `sub(t, L)` of a value below `2l`: the conditional subtraction -/
+theorem sc52Sub_l (t : ℕ) (ht : t < 2 * Ed.l) : sc52Sub t Ed.l = if t < Ed.l then t else t - Ed.l := by
+  unfold sc52Sub
+  simp only [l_literal, R260_literal] at ht ⊢
+  split <;> omega
+
+theorem sc52Sub_l_lt (t : ℕ) (ht : t < 2 * Ed.l) : sc52Sub t Ed.l < Ed.l := by
+  rw [sc52Sub_l t ht]; split <;> omega
+
+theorem sc52Sub_l_mod (t : ℕ) (ht : t < 2 * Ed.l) : sc52Sub t Ed.l = t % Ed.l := by
+  rw [sc52Sub_l t ht]
+  simp only [l_literal] at ht ⊢
+  split <;> omega
+
+/-- `Scalar52::add` on reduced operands is addition modulo `l` (it is NOT for unreduced operands: one subtraction only) -/
+theorem sc52Add_eq (a b : ℕ) (ha : a < Ed.l) (hb : b < Ed.l) : sc52Add a b = (a + b) % Ed.l := by
+  unfold sc52Add
+  have hs : (a + b) % R260 = a + b := by
+    simp only [l_literal, R260_literal] at ha hb ⊢; omega
+  rw [hs, sc52Sub_l_mod _ (by omega)]
+
+/-- the reduction is not vacuous: on unreduced operands the transcription differs from `(a + b) % l` -/
+example : sc52Add (2 * Ed.l) (2 * Ed.l) ≠ (2 * Ed.l + 2 * Ed.l) % Ed.l := by decide
+
+theorem lFactor_spec : (1 + lFactor * Ed.l) % R260 = 0 := by decide
+theorem lFactor_low_limb : lFactor % 2 ^ 52 = 0x51da312547e1b := by decide
+theorem scRR_spec : scRR = R260 * R260 % Ed.l := by decide
+theorem coprime_R260_l : Nat.Coprime R260 Ed.l := by
+  unfold Nat.Coprime; decide
+
+/-- Montgomery reduction: for `x < R·l` the result is reduced and equals `x·R⁻¹` modulo `l` -/
+theorem montReduce_spec (x : ℕ) (hx : x < R260 * Ed.l) :
+    montReduce x < Ed.l ∧ montReduce x * R260 ≡ x [MOD Ed.l] := by
+  unfold montReduce
+  simp only []
+  generalize hm : x % R260 * lFactor % R260 = m
+  have hRpos : 0 < R260 := by rw [R260_literal]; norm_num
+  have hmlt : m < R260 := by rw [← hm]; exact Nat.mod_lt _ hRpos
+  -- x + m·l is divisible by R
+  have hdiv : (x + m * Ed.l) % R260 = 0 := by
+    have h1 : (x + m * Ed.l) ≡ x + (x * lFactor) * Ed.l [MOD R260] := by
+      apply Nat.ModEq.add_left
+      apply Nat.ModEq.mul_right
+      rw [← hm]
+      exact (Nat.mod_modEq _ _).trans (Nat.ModEq.mul_right _ (Nat.mod_modEq _ _))
+    have h2 : x + (x * lFactor) * Ed.l = x * (1 + lFactor * Ed.l) := by ring
+    have h3 : x * (1 + lFactor * Ed.l) ≡ x * 0 [MOD R260] := Nat.ModEq.mul_left _ lFactor_spec
+    rw [h2] at h1
+    have := h1.trans h3
+    simpa [Nat.ModEq] using this
+  obtain ⟨t, ht⟩ := Nat.dvd_of_mod_eq_zero hdiv
+  have hq : (x + m * Ed.l) / R260 = t := by rw [ht]; exact Nat.mul_div_cancel_left _ hRpos
+  rw [hq]
+  have ht2 : t < 2 * Ed.l := by
+    have hml : m * Ed.l < R260 * Ed.l := Nat.mul_lt_mul_of_pos_right hmlt l_pos
+    have : R260 * t < R260 * (2 * Ed.l) := by rw [← ht]; nlinarith
+    exact Nat.lt_of_mul_lt_mul_left this
+  refine ⟨sc52Sub_l_lt t ht2, ?_⟩
+  rw [sc52Sub_l_mod t ht2]
+  have h4 : t % Ed.l * R260 ≡ t * R260 [MOD Ed.l] := Nat.ModEq.mul_right _ (Nat.mod_modEq _ _)
+  refine h4.trans ?_
+  rw [Nat.mul_comm t R260, ← ht]
+  show (x + m * Ed.l) % Ed.l = x % Ed.l
+  rw [Nat.add_mul_mod_self_right]
+
+/-- `Scalar52::mul` on reduced operands is multiplication modulo `l` -/
+theorem sc52Mul_eq (a b : ℕ) (ha : a < Ed.l) (hb : b < Ed.l) : sc52Mul a b = (a * b) % Ed.l := by
+  unfold sc52Mul
+  have hlR : Ed.l < R260 := by rw [l_literal, R260_literal]; norm_num
+  have hab : a * b < R260 * Ed.l := by
+    have : a * b < Ed.l * Ed.l := Nat.mul_lt_mul'' ha hb
+    have : Ed.l * Ed.l < R260 * Ed.l := Nat.mul_lt_mul_of_pos_right hlR l_pos
+    omega
+  obtain ⟨hu, hue⟩ := montReduce_spec (a * b) hab
+  generalize montReduce (a * b) = u at hu hue
+  have hRRlt : scRR < Ed.l := by rw [scRR_spec]; exact Nat.mod_lt _ l_pos
+  have huRR : u * scRR < R260 * Ed.l := by
+    have : u * scRR < Ed.l * Ed.l := Nat.mul_lt_mul'' hu hRRlt
+    have : Ed.l * Ed.l < R260 * Ed.l := Nat.mul_lt_mul_of_pos_right hlR l_pos
+    omega
+  obtain ⟨hv, hve⟩ := montReduce_spec (u * scRR) huRR
+  generalize montReduce (u * scRR) = v at hv hve
+  -- v·R ≡ u·RR ≡ u·R·R ≡ a·b·R, cancel R
+  have h1 : u * scRR ≡ u * (R260 * R260) [MOD Ed.l] := by
+    apply Nat.ModEq.mul_left; rw [scRR_spec]; exact Nat.mod_modEq _ _
+  have h2 : u * (R260 * R260) ≡ (a * b) * R260 [MOD Ed.l] := by
+    rw [← Nat.mul_assoc]; exact Nat.ModEq.mul_right _ hue
+  have h3 : v * R260 ≡ (a * b) * R260 [MOD Ed.l] := hve.trans (h1.trans h2)
+  have h4 : v ≡ a * b [MOD Ed.l] := Nat.ModEq.cancel_right_of_coprime coprime_R260_l.symm h3
+  have : v % Ed.l = v := Nat.mod_eq_of_lt hv
+  rw [← this]; exact h4
+
+/-! ### further helper lemmas for Props/C13 -/
+/-- the encoding of the neutral element is the byte string `01 00 … 00` -/
+theorem ofPoint_zero : ofPoint (0 : EdPoint) = ⟨0, 1, 1, 0⟩ := by
+  have h1 : (1 : F).val = 1 := by
+    haveI : Fact (1 < Ed.p) := ⟨p_gt_one⟩
+    exact ZMod.val_one Ed.p
+  unfold ofPoint
+  simp only [Point.zero_x, Point.zero_y, ZMod.val_zero, zero_mul, h1]
+
+set_option maxRecDepth 100000 in
+theorem encodePt_identity : Ed.encodePt ⟨0, 1, 1, 0⟩ = Ed.toBytesLE 1 32 := by decide +kernel
+
+theorem enc_zero : edOps.enc 0 = Ed.toBytesLE 1 32 := by
+  rw [edOps_enc, ofPoint_zero, encodePt_identity]
+
+/-- what strict decoding into the group returns, arithmetically: y is the low 255 bits (so they are < p), the parity of x is bit 255 -/
+theorem dec_spec (b : Bytes) (A : EdPoint) (h : edOps.dec b = some A) :
+    b.length = 32 ∧ A.y.val = Ed.leNat b % 2 ^ 255 ∧ A.x.val % 2 = Ed.leNat b / 2 ^ 255 := by
+  rw [edOps_dec] at h
+  cases hd : Ed.decodePt b with
+  | none => rw [decPoint_none hd] at h; exact absurd h (by simp)
+  | some P =>
+    rw [decPoint_some hd, Option.some.injEq] at h
+    obtain ⟨hlen, hdc⟩ := decodePt_some hd
+    obtain ⟨hv, hz, hy, hx⟩ := decompress_spec _ (leNat_lt_256 b hlen) P hdc
+    have hAx : A.x = (P.x : F) := by
+      rw [← h]; show (P.x : F) / (P.z : F) = _; rw [hz]; simp
+    have hAy : A.y = (P.y : F) := by
+      rw [← h]; show (P.y : F) / (P.z : F) = _; rw [hz]; simp
+    refine ⟨hlen, ?_, ?_⟩
+    · rw [hAy, ZMod.val_natCast, Nat.mod_eq_of_lt hv.reduced.2.1, hy]
+    · rw [hAx, ZMod.val_natCast, Nat.mod_eq_of_lt hv.reduced.1, hx]
+
+/-- a byte string that decodes (strictly) is an accepted key and is the encoding of what it decodes to -/
+theorem enc_of_dec (b : Bytes) (A : EdPoint) (h : edOps.dec b = some A) : publicAccept b = true ∧ edOps.enc A = b := by
+  have hacc : publicAccept b = true := by
+    rw [publicAccept_eq_ref]
+    cases hd : Ed.decodePt b with
+    | none => rw [edOps_dec, decPoint_none hd] at h; exact absurd h (by simp)
+    | some P => rfl
+  obtain ⟨A', h1, h2⟩ := dec_of_accept b hacc
+  rw [h] at h1
+  rw [Option.some.inj h1]; exact ⟨hacc, h2⟩
+
+/-- `hex::decode` on the model side: two characters per byte, every character a hex digit -/
+theorem hexDecode_spec : ∀ (s : List Char) (b : Bytes), hexDecode s = some b →
+    s.length = 2 * b.length ∧ ∀ c ∈ s, (hexVal c).isSome = true
+  | [], b, h => by
+    simp only [hexDecode, Option.some.injEq] at h
+    subst h; simp
+  | [_], b, h => by simp [hexDecode] at h
+  | x :: y :: t, b, h => by
+    rw [hexDecode] at h
+    cases hx : hexVal x with
+    | none => simp [hx] at h
+    | some vx =>
+      cases hy : hexVal y with
+      | none => simp [hx, hy] at h
+      | some vy =>
+        cases ht : hexDecode t with
+        | none => simp [hx, hy, ht] at h
+        | some r =>
+          simp only [hx, hy, ht, Option.some.injEq] at h
+          obtain ⟨ih1, ih2⟩ := hexDecode_spec t r ht
+          subst h
+          refine ⟨by simp only [List.length_cons, ih1]; omega, ?_⟩
+          intro c hc
+          simp only [List.mem_cons] at hc
+          rcases hc with rfl | rfl | hc
+          · rw [hx]; rfl
+          · rw [hy]; rfl
+          · exact ih2 c hc
 
 theorem l_lt_256_32 : Ed.l < 256 ^ 32 := by decide
 
